@@ -374,6 +374,14 @@ var subRoutes = ev.Register("route-table",
 			hs["Sec-Fetch-Site"] = "cross-site"
 		case "cross-site+origin":
 			hs["Sec-Fetch-Site"], hs["Origin"] = "cross-site", "https://evil.example"
+		case "cross-site+origin-null":
+			// an opaque origin (sandboxed frame, data: or file: document, cross-origin redirect) is serialised as "null"
+			hs["Sec-Fetch-Site"], hs["Origin"] = "cross-site", "null"
+		case "cross-site+origin-local":
+			hs["Sec-Fetch-Site"], hs["Origin"] = "cross-site", "http://localhost"
+		case "options+origin-null":
+			method = "OPTIONS"
+			hs["Origin"] = "null"
 		case "options+origin":
 			method = "OPTIONS"
 			hs["Origin"] = "https://evil.example"
@@ -385,7 +393,7 @@ var subRoutes = ev.Register("route-table",
 		after := snapshot()
 		live := c.Cookie == "live"
 		desc := fmt.Sprintf("%s %s cookie=%s(%dms) site=%s -> %d %q", method, rt.Path, c.Cookie, c.ExpMs, c.Site, st, clip(body))
-		if c.Site == "cross-site+origin" || c.Site == "options+origin" {
+		if strings.HasPrefix(c.Site, "cross-site+origin") || strings.HasPrefix(c.Site, "options+origin") {
 			if st != 403 {
 				return ev.Failf("harden.cross-site-not-refused:"+c.Site, "%s: a cross-site request must be refused with 403", desc)
 			}
@@ -440,7 +448,7 @@ func clip(s string) string {
 }
 
 var cookieClasses = []string{"none", "random", "logged-out", "expired", "live"}
-var siteClasses = []string{"", "same-origin", "cross-site", "cross-site+origin", "options+origin", "origin-only"}
+var siteClasses = []string{"", "same-origin", "cross-site", "cross-site+origin", "cross-site+origin-null", "cross-site+origin-local", "options+origin", "options+origin-null", "origin-only"}
 var margins = []int{1, 1000, 9 * 60 * 1000, 11 * 60 * 1000, 30 * 60 * 1000, 3600 * 1000}
 
 func TestRouteTable(t *testing.T) {
@@ -469,7 +477,7 @@ func TestRouteTable(t *testing.T) {
 			}
 		}
 	})
-	ev.Note("route-table: %d (route, method) pairs from the source x 5 cookie classes (6 expiry margins) x 6 site-header classes, enumerated completely", len(routes))
+	ev.Note("route-table: %d (route, method) pairs from the source x 5 cookie classes (6 expiry margins) x 9 site-header classes (Origin values: a foreign https origin, the opaque origin \"null\", a local http origin), enumerated completely", len(routes))
 }
 
 // ---------------------------------------------------------------- (2) session histories
